@@ -123,6 +123,12 @@ def apply_loop_rule(rule, header, ghost, log, unit):
     h = header.strip()
     if rule in (None, 'KEEP'):
         return '', h, '', ''
+    if rule == 'IT':
+        # ghost-only: name the for-loop iterator so that an invariant can mention `__it.iter.end`
+        m = re.match(r'for\s+(\w+)\s+in\s+(.+)$', h, re.S)
+        if not m:
+            raise ExtractError('%s: loop header does not match IT: %s' % (unit, h))
+        return '', 'for %s in __it: %s' % (m.group(1), m.group(2)), '', ''
     if rule in ('R1', 'R1m', 'R1c', 'R1s'):
         m = re.match(r'for\s*\(\s*(\w+)\s*,\s*(&?)\s*(\w+)\s*\)\s+in\s+(.+?)\s*\.iter\(\)\s*\.enumerate\(\)$', h, re.S)
         if not m:
@@ -217,7 +223,7 @@ def transform_body(unit, body, directives, log):
             anchor = d['anchor']
             idxs = [m.start() for m in re.finditer(re.escape(anchor), body)]
             idxs = [i for i in idxs if mbody[i] == body[i]]
-            if d['n'] >= len(idxs):
+            if d['n'] >= len(idxs) or -d['n'] > len(idxs):
                 raise ExtractError('%s: anchor `%s` #%d not found' % (unit, anchor, d['n']))
             at = idxs[d['n']]
             if kind == 'after':
@@ -306,6 +312,20 @@ def process(template_path, info, out_lines, depth=0):
             out_lines.extend(hdr.rstrip('\n').split('\n'))
             out_lines.append('{ unimplemented!() }')
             i += 1
+        elif s.startswith('//@canary '):
+            # vacuity canary: same signature and `requires` as the contract, body `assert(false)`; MUST be refuted
+            cid = s.split()[1]
+            _, hdr = read_hdr(cid)
+            h = re.sub(r'\bfn\s+(\w+)', lambda m: 'fn canary_%s' % cid, hdr, count=1)
+            h = re.sub(r'^\s*pub\s+', '', h)
+            h = re.split(r'\n\s*ensures\b', h)[0].rstrip().rstrip(',') + ','
+            if 'requires' not in h:
+                h = h.rstrip(',')
+            out_lines.append('// CANARY(%s): must fail' % cid)
+            out_lines.extend(h.split('\n'))
+            out_lines.append('{ assert(false); vstd::pervasive::unreached() }')
+            info.setdefault('canaries', []).append('canary_' + cid)
+            i += 1
         elif s.startswith('//@unit '):
             m = re.match(r'//@unit\s+(\S+)\s+(\S+)\s*::\s*(.*?)\s*::\s*(\w+)\s*(#\d+)?\s*$', s)
             if not m:
@@ -334,7 +354,7 @@ def process(template_path, info, out_lines, depth=0):
                     kind = 'before' if t.startswith('//@before') else 'after'
                     rest = t[len('//@' + kind):].strip()
                     n = 0
-                    mm = re.match(r'#(\d+)\s*(.*)', rest)
+                    mm = re.match(r'#(-?\d+)\s*(.*)', rest)
                     if mm:
                         n, rest = int(mm.group(1)), mm.group(2)
                     anchor, _ = parse_q(rest)
